@@ -46,7 +46,6 @@ def r1_exact(ctx):
               repr(vec), "the analysis no longer treats score-vector entries as possibly-int; exactness check would be vacuous")
 
 
-@shape_rule
 def r2_allocation(ctx):
     prog = ctx.prog
     f = prog.find_func("score_profile_from_rankings")
@@ -82,6 +81,15 @@ def r2_allocation(ctx):
             return "W"
         if isinstance(e, ast.Call) and astx.u(e.func) == "len" and e.args and astx.u(e.args[0]) == s:
             return "L"
+        if isinstance(e, ast.Name) and e.id not in (idx,):
+            # a running total `t = 0; for x in XS: t += E(x)` is sum(E(x) for x in XS)
+            from vk import listform
+            sm = listform.sum_of(f.node, e)
+            if sm is not None and not sm.conditional and isinstance(sm.node, ast.AugAssign):
+                try:
+                    return rename(ast.parse(f"sum({astx.u(sm.elt)} for {sm.var} in {astx.u(sm.iter)})", mode="eval").body)
+                except SyntaxError:
+                    return None
         if isinstance(e, ast.Call) and astx.u(e.func) == "sum" and e.args:
             a = e.args[0]
             exact_entries = False
@@ -289,7 +297,6 @@ def r5_grouping_direction(ctx):
                   f"{cls.name} passes sort_high_low={astx.u(e) if e is not None else status}; every documented rule ranks high to low")
 
 
-@shape_rule
 def r6_top_m(ctx):
     prog = ctx.prog
     sel = prog.find_func("elect_cands_from_set_ranking")
@@ -344,12 +351,20 @@ def r6_top_m(ctx):
     if loop:
         lp = loop[0]
         app = [c for c in astx.calls_in(lp, "append", own_only=False) if pm.get(pm.get(c)) is lp]
-        if app and isinstance(app[0].args[0], ast.Subscript):
-            i = astx.u(app[0].args[0].slice)
+        arg0 = app[0].args[0] if app else None
+        if isinstance(arg0, ast.Name):
+            # a temporary holding ranking[i], assigned in the loop just before it is appended
+            dv0 = astx.unique_def(sel.node, arg0.id)
+            arg0 = dv0 if isinstance(dv0, ast.Subscript) else arg0
+        if app and isinstance(arg0, ast.Subscript):
+            i = astx.u(arg0.slice)
             init = [dv for st, dv in astx.defs_of(sel.node, i) if dv is not None and astx.is_const(dv, 0)]
             inc = [x for x in lp.body if isinstance(x, ast.AugAssign) and astx.is_name(x.target, i) and isinstance(x.op, ast.Add) and astx.is_const(x.value, 1)]
-            good = astx.u(app[0].args[0].value) == sel.params[0] and len(init) == 1 and len(inc) == 1 and lp.body[-1] is inc[0] \
-                and lp.body.index(astx.stmt_of(app[0], pm)) == 0
+            # the group is appended unconditionally, before the overshoot test (the first `if` of the body)
+            first_if = next((k for k, x in enumerate(lp.body) if isinstance(x, ast.If)), len(lp.body))
+            app_st = astx.stmt_of(app[0], pm)
+            good = astx.u(arg0.value) == sel.params[0] and len(init) == 1 and len(inc) == 1 and lp.body[-1] is inc[0] \
+                and any(x is app_st for x in lp.body[:first_if])
     ctx.check(good, sel, loop[0] if loop else sel.node, "selector consumes ranking[0], ranking[1], ... in order", "", "the selector no longer walks the ranking from its top group downward")
 
 
